@@ -103,13 +103,15 @@ CLAIMS = {
         text="Output times never flow into step arguments or the step size; next_t = min(curr_t + dt, ts[-1]); ys[0] "
              "is y0; linear_interp is the linear interpolant (polynomial identity) applied to the last two grid "
              "states; list ts normalised to y0's dtype/device. Implicit flows of the output time through branches; exact-rational model of the last steps (a genuine remainder stays a clipped step); float-exact reduction of the interpolation formula at its end points."
-             ' A list ts is followed through every dtype conversion of the validation phase (R12.5, semantic); every path through the output stage is the linear interpolant and leaves the loop state alone (R12.4); a pass of the stepping loop advances the clock or raises (R12.9).',
+             ' A list ts is followed through every dtype conversion of the validation phase (R12.5, semantic); every path through the output stage is the linear interpolant and leaves the loop state alone (R12.4); a pass of the stepping loop advances the clock or raises (R12.9).'
+             ' Replay of whole fixed-step solves with the real steps (solver_replay.py): outputs at grid times are the grid states, outputs inside a step their linear interpolants, whatever other output times are requested, clipped last step included (R12.10).',
         note="Bit-level equality is not decided. " + TRUSTED),
     "C13": dict(
         technique="effect analysis: no hidden state outside constructors; extra-state plumbing",
         text="No attribute/global store in any step, integrate, init_extra_solver_state or SDE-wrapper method other "
              "than __init__; integrate returns the carried extra; sdeint uses extra_solver_state verbatim. The value reported at a step end is the solver's state bit for bit (float-exact reduction); fixed-step arguments depend only on the restartable state. The reported outputs are the loop states themselves (list + stack, or an output tensor without a fixed dtype)."
-             ' The end-of-call guard absorbs only a remainder of rounding-error size, also far from the origin (R13.7, last-steps model).',
+             ' The end-of-call guard absorbs only a remainder of rounding-error size, also far from the origin (R13.7, last-steps model).'
+             " Replay of whole solves with the real steps: [0, 3/8] in two and in three chunks restarted from the returned state and extra solver state gives the one-shot solve's canonical forms (R13.8).",
         note="Bit identity across chunks additionally needs C05 and float reasoning. " + TRUSTED),
     "C14": dict(
         technique="control-dependence + truth-table of the accept predicate; interval analysis of the controller",
@@ -122,7 +124,8 @@ CLAIMS = {
         technique="ast formula canonicalisation: reverse step composed with forward step is the identity",
         text="Running ReversibleHeun.step on the negated, time-reflected SDE with ReverseBrownian's extracted time "
              "map and negated extras returns the forward inputs, as a polynomial identity in opaque f, g. The reversed solve walks the reflected grid: output times do not move step boundaries, no left-over rounding-size step, time axis in the state's dtype."
-             ' The time quantiser is odd, q(-x) = -q(x) (R15.9); R10.7 as for C10 (known finding).',
+             ' The time quantiser is odd, q(-x) = -q(x) (R15.9); R10.7 as for C10 (known finding).'
+             ' Replay: reversible Heun forward over two and three steps and back on the negated, time-reversed SDE with the real ReverseBrownian and the negated final extras returns to every forward state as a polynomial identity (R15.10).',
         note="Numerical stability of the reverse recursion is not decided. " + TRUSTED),
     "C16": dict(
         technique="finite-domain evaluation of the registration logic over all 32 method subsets",
